@@ -221,6 +221,17 @@ func genCacheEvents(t *rapid.T, c *CacheCase, nev int) {
 		if rapid.IntRange(0, 4).Draw(t, "ptag") == 0 {
 			e.Tags = append(e.Tags, []string{"p", ref.Authors[rapid.IntRange(0, 2).Draw(t, "p")].Pubkey, "extra"})
 		}
+		// a repeated (name, value) pair, not at the end: index maintenance must
+		// cope with one event contributing the same index key twice
+		if len(e.Tags) > 0 && rapid.IntRange(0, 3).Draw(t, "duptag") == 0 {
+			src := e.Tags[rapid.IntRange(0, len(e.Tags)-1).Draw(t, "dupsrc")]
+			cp := append([]string{}, src...)
+			if len(cp) >= 2 && rapid.IntRange(0, 1).Draw(t, "dupextra") == 0 {
+				cp = append(cp[:2:2], "other-hint")
+			}
+			pos := rapid.IntRange(0, len(e.Tags)).Draw(t, "duppos")
+			e.Tags = append(e.Tags[:pos:pos], append([][]string{cp}, e.Tags[pos:]...)...)
+		}
 		nrefs := 0
 		if e.Kind == 5 {
 			nrefs = rapid.IntRange(1, 3).Draw(t, "nrefs")
